@@ -21,7 +21,7 @@ import (
 // case
 
 type recSpec struct {
-	T     string // A AAAA TXT TXTBIG MX NS CNAME SOA
+	T     string // A AAAA TXT TXTBIG FILL MX NS CNAME SOA
 	Owner string // relative owner ("" = apex)
 	V     uint32 // content seed; serial for SOA
 }
@@ -59,6 +59,7 @@ type xferCase struct {
 	Seg      []int
 	Trailer  bool
 	Compress bool
+	Rounds   []string // library / libout sender: requests sent over ONE connection ("xfr" | "query"); empty = one transfer
 }
 
 const watchdog = 30 * time.Second
@@ -102,6 +103,18 @@ func (r recSpec) rr(zone string) dns.RR {
 	case "TXTBIG":
 		h.Rrtype = dns.TypeTXT
 		return &dns.TXT{Hdr: h, Txt: []string{strings.Repeat("x", int(v%200)+1), fmt.Sprintf("%d", v)}}
+	case "FILL": // a TXT record whose RDATA is exactly V octets long (filler to reach an exact message size)
+		h.Rrtype = dns.TypeTXT
+		var txt []string
+		n := int(v)
+		for n >= 256 {
+			txt = append(txt, strings.Repeat("f", 255))
+			n -= 256
+		}
+		if n > 0 {
+			txt = append(txt, strings.Repeat("g", n-1))
+		}
+		return &dns.TXT{Hdr: h, Txt: txt}
 	case "MX":
 		h.Rrtype = dns.TypeMX
 		return &dns.MX{Hdr: h, Preference: uint16(v), Mx: sub("mail")}
@@ -233,6 +246,9 @@ func (c xferCase) valid() string {
 	}
 	switch c.Sender {
 	case "harness":
+		if len(c.Rounds) > 0 {
+			return "rounds need the library sender"
+		}
 	case "library", "libout":
 		if c.Fault.Kind != "" && c.Fault.Kind != "cut" {
 			return "library sender only supports the cut fault"
@@ -240,10 +256,81 @@ func (c xferCase) valid() string {
 		if c.Sender == "libout" && c.Fault.Kind != "" {
 			return "libout has no faults"
 		}
+		if len(c.Rounds) > 4 || (len(c.Rounds) > 0 && c.Fault.Kind != "") {
+			return "rounds"
+		}
+		for _, r := range c.Rounds {
+			if r != "xfr" && r != "query" {
+				return "rounds"
+			}
+		}
 	default:
 		return "sender"
 	}
 	return ""
+}
+
+// tsigRRLen is the size of the TSIG RR the case's key adds to every envelope.
+func (c xferCase) tsigRRLen() int {
+	if c.Tsig == nil {
+		return 0
+	}
+	msg := make([]byte, 12)
+	out, _, _ := tsigSign(msg, c.key(), c.Tsig.KeyName, signOpts{now: 1, fudge: 300})
+	return len(out) - len(msg)
+}
+
+// maxEnvelopeLen is the size on the wire (without the length prefix) of the largest envelope.
+func (c xferCase) maxEnvelopeLen() int {
+	hasFill := false
+	for _, r := range c.flat() {
+		if r.T == "FILL" {
+			hasFill = true
+		}
+	}
+	if !hasFill {
+		return 0 // ordinary cases stay far below 16 KiB; not worth packing twice
+	}
+	max := 0
+	for _, e := range c.envelopes() {
+		if n := len(packEnvelope(c, e)) + c.tsigRRLen(); n > max {
+			max = n
+		}
+	}
+	return max
+}
+
+// sizeFiller sets the V of the (single) FILL record so that the envelope holding it is exactly
+// target octets on the wire, TSIG included; false if that is impossible.
+func sizeFiller(c *xferCase, target int) bool {
+	set := func(v uint32) {
+		for i := range c.Recs {
+			if c.Recs[i].T == "FILL" {
+				c.Recs[i].V = v
+			}
+		}
+		for d := range c.Diffs {
+			for i := range c.Diffs[d].Add {
+				if c.Diffs[d].Add[i].T == "FILL" {
+					c.Diffs[d].Add[i].V = v
+				}
+			}
+		}
+	}
+	set(1)
+	for _, e := range c.envelopes() {
+		for _, r := range e {
+			if r.T == "FILL" {
+				v := 1 + target - (len(packEnvelope(*c, e)) + c.tsigRRLen())
+				if v < 1 || v > 65535 {
+					return false
+				}
+				set(uint32(v))
+				return true
+			}
+		}
+	}
+	return false
 }
 
 func (c xferCase) envelopes() [][]recSpec {
@@ -571,7 +658,7 @@ type result struct {
 	consumed   int
 }
 
-func collect(ch chan *dns.Envelope, cli *endpoint, limit time.Duration) result {
+func collect(ch chan *dns.Envelope, cli closeObserver, limit time.Duration) result {
 	var r result
 	wd := time.NewTimer(limit)
 	defer wd.Stop()
@@ -611,7 +698,10 @@ func readFrame(e *endpoint) ([]byte, error) {
 }
 
 func newTransfer(c xferCase, cli *endpoint) *dns.Transfer {
-	tr := &dns.Transfer{Conn: &dns.Conn{Conn: cli}, ReadTimeout: 20 * time.Second, WriteTimeout: 20 * time.Second}
+	tr := &dns.Transfer{ReadTimeout: 20 * time.Second, WriteTimeout: 20 * time.Second}
+	if cli != nil {
+		tr.Conn = &dns.Conn{Conn: cli}
+	}
 	if c.Tsig != nil {
 		tr.TsigSecret = c.secrets()
 	}
@@ -671,7 +761,8 @@ type outServer struct {
 }
 
 func startOutServer(c xferCase) (*outServer, error) {
-	o := &outServer{lis: newMemListener(), done: make(chan error, 1), status: make(chan string, 4), zone: c.Zone}
+	o := &outServer{lis: newMemListener(), done: make(chan error, 1), status: make(chan string, 16), zone: c.Zone}
+	multi := c.multi()
 	for _, e := range c.envelopes() {
 		var rrs []dns.RR
 		for _, r := range e {
@@ -679,7 +770,7 @@ func startOutServer(c xferCase) (*outServer, error) {
 		}
 		o.envs = append(o.envs, rrs)
 	}
-	if c.Trailer {
+	if c.Trailer && !multi {
 		o.envs = append(o.envs, []dns.RR{recSpec{T: "A", Owner: "trailer", V: 1}.rr(c.Zone)})
 	}
 	started := make(chan struct{})
@@ -697,6 +788,17 @@ func startOutServer(c xferCase) (*outServer, error) {
 			}
 		}
 		o.status <- st
+		if qt := r.Question[0].Qtype; qt != dns.TypeAXFR && qt != dns.TypeIXFR {
+			// an ordinary query on the same connection: one answer, signed when the request was
+			m := new(dns.Msg)
+			m.SetReply(r)
+			m.Answer = []dns.RR{plainAnswer(c.Zone)}
+			if t := r.IsTsig(); t != nil && w.TsigStatus() == nil {
+				m.SetTsig(t.Hdr.Name, t.Algorithm, t.Fudge, time.Now().Unix())
+			}
+			w.WriteMsg(m)
+			return
+		}
 		ch := make(chan *dns.Envelope)
 		tr := new(dns.Transfer)
 		fin := make(chan error, 1)
@@ -715,7 +817,9 @@ func startOutServer(c xferCase) (*outServer, error) {
 		if !finished {
 			<-fin
 		}
-		w.Close()
+		if !multi {
+			w.Close()
+		} // several requests per connection: the client ends the connection
 	})
 	go func() { o.done <- o.srv.ActivateAndServe() }()
 	select {
@@ -897,6 +1001,14 @@ func checkXfer(c xferCase) error {
 	if c.wrapClass() {
 		classes = append(classes, "serial-wrap")
 	}
+	if c.multi() {
+		classes = append(classes, fmt.Sprintf("rounds=%d", len(c.Rounds)), fmt.Sprintf("rounds/tsig=%v", c.Tsig != nil))
+	}
+	if sz := c.maxEnvelopeLen(); sz >= 65533 {
+		classes = append(classes, fmt.Sprintf("envelope-size=%d", sz), fmt.Sprintf("envelope-64k/tsig=%v/sender=%s", c.Tsig != nil, c.Sender))
+	} else if sz > 16384 {
+		classes = append(classes, "envelope-size>16k")
+	}
 	nontrivial := nenv >= 2 || c.Mode == "ixfr" || c.Fault.Kind != ""
 	if c.Fault.Kind != "" {
 		classes = append(classes, fmt.Sprintf("fault=%s/tsig=%v", c.Fault.Kind, c.Tsig != nil))
@@ -978,6 +1090,14 @@ func checkLibrarySender(c xferCase) error {
 	}
 	cli, _ := o.lis.dial()
 	cli.in.seg = c.Seg
+	if c.multi() {
+		err := libraryRounds(c, o, cli)
+		cli.Close()
+		if serr := o.stop(); err == nil {
+			err = serr
+		}
+		return err
+	}
 	// length of the fault-free stream as this harness would write it (same messages, same TSIG sizes)
 	var mac []byte
 	if c.Tsig != nil {
@@ -1056,81 +1176,12 @@ func checkLibOut(c xferCase) error {
 	}
 	cli, _ := o.lis.dial()
 	cli.in.seg = c.Seg
-	q := c.query()
-	var reqMAC []byte
-	var wire []byte
-	if c.Tsig != nil {
-		q.Extra = nil
-		mb, err := q.Pack()
-		if err != nil {
-			o.stop()
-			return err
-		}
-		wire, reqMAC, _ = tsigSign(mb, c.key(), c.Tsig.KeyName, signOpts{now: uint64(time.Now().Unix()), fudge: 300})
-	} else {
-		if wire, err = q.Pack(); err != nil {
-			o.stop()
-			return err
-		}
-	}
-	cli.Write(append(binary.BigEndian.AppendUint16(nil, uint16(len(wire))), wire...))
-	cli.SetReadDeadline(time.Now().Add(watchdog))
-	var msgs [][]byte
-	var rerr error
-	for {
-		b, err := readFrame(cli)
-		if err != nil {
-			rerr = err
-			break
-		}
-		msgs = append(msgs, b)
-	}
+	err = refRounds(c, o, cli)
 	cli.Close()
-	stopErr := o.stop()
-	if stopErr != nil {
-		return stopErr
+	if serr := o.stop(); err == nil {
+		err = serr
 	}
-	if rerr != io.EOF {
-		return pbt.Errf("sending server did not end the stream cleanly: %v after %d messages", rerr, len(msgs))
-	}
-	st := <-o.status
-	if c.Tsig != nil && st != "signed-ok" {
-		return pbt.Errf("request signed by the reference signer was not accepted by the server: %s", st)
-	}
-	envs := c.envelopes()
-	if c.Trailer {
-		envs = append(envs, []recSpec{{T: "A", Owner: "trailer", V: 1}})
-	}
-	if len(msgs) != len(envs) {
-		return pbt.Errf("Transfer.Out wrote %d messages for %d envelopes", len(msgs), len(envs))
-	}
-	prior := reqMAC
-	for i, b := range msgs {
-		m := new(dns.Msg)
-		if err := m.Unpack(b); err != nil {
-			return pbt.Errf("message %d written by Transfer.Out does not decode: %v", i, err)
-		}
-		if m.Id != c.QID || !m.Response || m.Rcode != 0 {
-			return pbt.Errf("message %d: id=%d (want %d) qr=%v rcode=%d", i, m.Id, c.QID, m.Response, m.Rcode)
-		}
-		var got []string
-		for _, rr := range m.Answer {
-			got = append(got, rr.String())
-		}
-		if !eqStrs(got, strs(c.Zone, envs[i])) {
-			return pbt.Errf("message %d carries %q, envelope was %q", i, got, strs(c.Zone, envs[i]))
-		}
-		if c.Tsig != nil {
-			mac, err := refVerify(b, c.key(), prior, i > 0)
-			if err != nil {
-				return pbt.Errf("message %d of %d written by Transfer.Out fails the reference TSIG check (prior MAC chain, timers-only=%v): %v", i, len(msgs), i > 0, err)
-			}
-			prior = mac
-		} else if _, ok, _ := findTsig(b); ok {
-			return pbt.Errf("message %d carries a TSIG although the request had none", i)
-		}
-	}
-	return nil
+	return err
 }
 
 // ---------------------------------------------------------------------------------------------
@@ -1252,6 +1303,18 @@ func genCase(t *rapid.T) xferCase {
 		}
 		c.Serial = cur
 	}
+	big := c.Mode != "uptodate" && rapid.IntRange(0, 79).Draw(t, "bigenv") == 7
+	if big {
+		// one envelope padded to (almost) the largest message the two-octet length prefix allows
+		fill := recSpec{T: "FILL", Owner: "fill", V: 1}
+		if c.Mode == "ixfr" {
+			d := rapid.IntRange(0, len(c.Diffs)-1).Draw(t, "filldiff")
+			c.Diffs[d].Add = append(c.Diffs[d].Add, fill)
+		} else {
+			at := rapid.IntRange(0, len(c.Recs)).Draw(t, "fillat")
+			c.Recs = append(c.Recs[:at:at], append([]recSpec{fill}, c.Recs[at:]...)...)
+		}
+	}
 	if c.wrapClass() && pbt.Known(knownWrap) {
 		// known finding: the receiver compares serials numerically; re-base the same history to small serials
 		pbt.Excluded(knownWrap)
@@ -1315,7 +1378,24 @@ func genCase(t *rapid.T) xferCase {
 		c.Seg = rapid.SliceOfN(rapid.SampledFrom([]int{1, 1, 2, 3, 7, 64, 1000}), 1, 4).Draw(t, "seg")
 	}
 	c.Trailer = rapid.Bool().Draw(t, "trailer")
-	c.Compress = c.Sender == "harness" && rapid.Bool().Draw(t, "compress")
+	c.Compress = c.Sender == "harness" && !big && rapid.Bool().Draw(t, "compress")
+	if c.Sender != "harness" && c.Fault.Kind == "" && rapid.IntRange(0, 9).Draw(t, "multi") < 5 {
+		// several requests over one connection to the sending server
+		n := rapid.IntRange(2, 3).Draw(t, "nrounds")
+		c.Rounds = []string{"xfr"}
+		for len(c.Rounds) < n {
+			c.Rounds = append(c.Rounds, rapid.SampledFrom([]string{"xfr", "xfr", "query"}).Draw(t, "round"))
+		}
+		if rapid.IntRange(0, 3).Draw(t, "query-first") == 0 {
+			c.Rounds[0], c.Rounds[len(c.Rounds)-1] = c.Rounds[len(c.Rounds)-1], c.Rounds[0]
+		}
+	}
+	if big {
+		target := rapid.SampledFrom([]int{65535, 65535, 65535, 65534, 65533, 65535 - 256, 32768, 16384}).Draw(t, "envsize")
+		if !sizeFiller(&c, target) {
+			sizeFiller(&c, 20000)
+		}
+	}
 	return c
 }
 
